@@ -1,2 +1,63 @@
-From Astisub Require Import Kit.Base Model.Dur.
-Theorem C16_placeholder : True. Proof. exact I. Qed.
+(* C16 — Timestamp codec: truncating, canonical, monotone, self-inverse per format.
+   Text formats: sep = ',' (SubRip) or '.' (WebVTT, TTML, SSA); k fraction digits = 3 (ms) or 2 (SSA, cs);
+   every reader parses with 3 digits.  frac_div k = 10^(9-k) ns is the format's unit. *)
+From Coq Require Import List ZArith NArith Bool.
+From Astisub Require Import Kit.Base Kit.Str Model.Dur Proofs.DurProofs.
+Import ListNotations.
+Open Scope Z_scope.
+
+(* grammar: hh(+):mm:ss<sep>f{k}, two-digit minutes and seconds below 60, exactly k fraction digits *)
+Theorem C16_grammar : forall sep k t, (1 <= k <= 3)%nat -> 0 <= t ->
+  format_duration t [sep] k = two (f_h t) ++ [colon] ++ two (f_m t) ++ [colon] ++ two (f_s t) ++ [sep] ++ pad_left 48%N k (itoa_z (f_fr k t)) /\
+  digits (two (f_h t)) /\ (2 <= length (two (f_h t)))%nat /\
+  digits (two (f_m t)) /\ length (two (f_m t)) = 2%nat /\ 0 <= f_m t < 60 /\
+  digits (two (f_s t)) /\ length (two (f_s t)) = 2%nat /\ 0 <= f_s t < 60 /\
+  digits (pad_left 48%N k (itoa_z (f_fr k t))) /\ length (pad_left 48%N k (itoa_z (f_fr k t))) = k.
+Proof. exact format_grammar. Qed.
+
+(* the reader maps the rendering of t to the latest representable instant not after t
+   (every non-negative int64 instant: no 100 h bound is needed) *)
+Theorem C16_parse_format : forall sep k t, sep_ok sep -> (1 <= k <= 3)%nat -> 0 <= t <= max_int64 ->
+  parse_duration (format_duration t [sep] k) sep 3 = Some (t - t mod frac_div k).
+Proof. exact parse_format. Qed.
+Theorem C16_latest_representable : forall k t, (1 <= k <= 3)%nat -> 0 <= t ->
+  let u := frac_div k in (t - t mod u) mod u = 0 /\ t - t mod u <= t < t - t mod u + u.
+Proof. exact trunc_latest. Qed.
+(* a second write is identical to the first *)
+Theorem C16_canonical : forall sep k t, (1 <= k <= 3)%nat -> 0 <= t ->
+  format_duration (t - t mod frac_div k) [sep] k = format_duration t [sep] k.
+Proof. exact format_canonical. Qed.
+(* later instants never render as earlier timestamps *)
+Theorem C16_monotone : forall k t t', (1 <= k <= 3)%nat -> 0 <= t <= t' ->
+  t - t mod frac_div k <= t' - t' mod frac_div k.
+Proof. exact format_monotone. Qed.
+
+(* instances *)
+Example C16_seps : sep_ok comma /\ sep_ok dot. Proof. split; split; (reflexivity || discriminate). Qed.
+Example C16_units : frac_div 3 = 1000000 /\ frac_div 2 = 10000000. Proof. split; reflexivity. Qed.
+Example C16_srt_example : format_srt 359999999999999 = [57;57;58;53;57;58;53;57;44;57;57;57]%N /\ parse_srt (format_srt 359999999999999) = Some 359999999000000.
+Proof. split; vm_compute; reflexivity. Qed.
+Example C16_ssa_example : parse_ssa (format_ssa 3723456789012) = Some 3723450000000.
+Proof. vm_compute; reflexivity. Qed.
+Example C16_100h_example : parse_vtt (format_vtt 360000001000000) = Some 360000001000000.
+Proof. vm_compute; reflexivity. Qed.
+
+(* STL (fps = 25 or 30; any 0 < fps < 100), t below 24 h: the frame rendered is the latest frame
+   instant not after t, below fps; the reader returns that instant to within 1 ns; a second write is identical *)
+Theorem C16_stl : forall t fps, 0 <= t < day_ns -> 0 < fps < 100 ->
+  let F := ((t mod second_ns) * fps) / second_ns in
+  let exact_times_fps := (f_h t * hour_ns + f_m t * minute_ns + f_s t * second_ns) * fps + F * second_ns in
+  0 <= F < fps /\
+  exists v, parse_stl (format_stl t fps) fps = Some v /\
+    exact_times_fps <= v * fps < exact_times_fps + fps /\
+    v <= t + 1 /\ format_stl v fps = format_stl t fps.
+Proof. exact stl_roundtrip. Qed.
+Example C16_stl_example : format_stl 33333334 30 = [48;48;48;48;48;48;48;49]%N /\ parse_stl (format_stl 33333334 30) 30 = Some 33333334.
+Proof. split; vm_compute; reflexivity. Qed.
+
+Print Assumptions C16_grammar.
+Print Assumptions C16_parse_format.
+Print Assumptions C16_latest_representable.
+Print Assumptions C16_canonical.
+Print Assumptions C16_monotone.
+Print Assumptions C16_stl.
